@@ -6,15 +6,16 @@ package stackitem
 
 //@ prop C17
 //@ import io github.com/nspcc-dev/neo-go/pkg/io
+//@ pkg-invariant errTooBigElements != nil && ErrInvalidType != nil
 
 // Safety contract of the stack item decoder: for every input stream it neither panics nor
 // allocates more than the element limit allows; the reader stays well-formed.
 //@ func (*deserContext).decodeBinary
-//@ requires r != nil && r.BinReader != nil && io.validR(r.BinReader) && r.limit <= MaxDeserialized
+//@ requires r != nil && r.BinReader != nil && io.validR(r.BinReader) && -1 <= r.limit && (r.limit >= 0 || r.BinReader.Err != nil) && r.limit <= MaxDeserialized
 //@ modifies r.limit, r.BinReader.Err, r.BinReader.uv, r.BinReader.r.pos
 //@ opt frame off
-//@ opt stable r.BinReader, r.BinReader.r, r.BinReader.Err, r.BinReader.r.pos, r.limit, r.allowInvalid
+//@ opt stable r.BinReader, r.BinReader.r, r.BinReader.Err, r.BinReader.r.pos, r.BinReader.r.in, r.limit, r.allowInvalid
 //@ opt alloc-bound 2048
-//@ ensures[reader] io.validR(r.BinReader) && r.BinReader == old(r.BinReader) && r.limit <= old(r.limit)
-//@ loop 0 invariant io.validR(r.BinReader) && r.BinReader == old(r.BinReader) && r.limit <= MaxDeserialized
-//@ loop 1 invariant io.validR(r.BinReader) && r.BinReader == old(r.BinReader) && r.limit <= MaxDeserialized
+//@ ensures[reader] io.validR(r.BinReader) && r.BinReader == old(r.BinReader) && r.limit <= old(r.limit) && -1 <= r.limit && (r.limit >= 0 || r.BinReader.Err != nil)
+//@ loop 0 invariant io.validR(r.BinReader) && r.BinReader == old(r.BinReader) && r.limit <= old(r.limit) && -1 <= r.limit && (r.limit >= 0 || r.BinReader.Err != nil)
+//@ loop 1 invariant io.validR(r.BinReader) && r.BinReader == old(r.BinReader) && r.limit <= old(r.limit) && -1 <= r.limit && (r.limit >= 0 || r.BinReader.Err != nil)
